@@ -287,6 +287,20 @@ RefSeq(c)  == IF c = 0 THEN << >> ELSE [k \in 1..((Steps \div c) + 1) |-> (k - 1
 PosMult(c) == IF c = 0 THEN << >> ELSE [k \in 1..(Steps \div c) |-> k * c]
 IsPrefixOf(a, b) == Len(a) <= Len(b) /\ \A k \in 1..Len(a) : a[k] = b[k]
 
+\* the state a resumed process finds when an earlier process died right after publishing the checkpoint of step
+\* `off` with everything up to it durable (used to validate a resumed segment on its own)
+DeadAfterCheckpoint(c, off) ==
+    /\ cfg = c /\ pc = "dead" /\ i = off
+    /\ cur = [s \in H5Streams |-> 0]
+    /\ dsk = [s \in H5Streams |-> [r \in 0..(Cap(s) - 1) |-> IF r < NRows(s) /\ r * Stride(s) <= off THEN r * Stride(s) ELSE Unwritten]]
+    /\ mem = dsk
+    /\ xbuf = << >> /\ torn = FALSE
+    /\ xdsk = (IF c.xyz = 0 THEN << >> ELSE [k \in 1..((off \div c.xyz) + 1) |-> (k - 1) * c.xyz])
+    /\ ckpt = [done |-> off, xlen |-> Len(xdsk)]
+    /\ tmp = "none" /\ litter = 0 /\ crashes = 1 /\ exact = TRUE
+    /\ scr = << >> /\ cks = << >> /\ hist = << >>
+
+
 TypeOK ==
     /\ pc \in {"fresh", "step", "na", "stepdone", "scr", "data", "data2", "vec", "xyz", "flushh", "flushx",
                "tmp", "tmp2", "replace", "next", "done", "dead"}
